@@ -42,6 +42,11 @@ type loginPlan struct {
 	// bytes 0x00; "spaces-end": the last two bytes are blanks (a nonce is binary data: every byte counts)
 	NonceShape string `json:"nonce_shape,omitempty"`
 	Remote     int    `json:"remote"`
+	// Deaf (C08): the server accepts the connection and stops reading before the login begins; its socket buffer
+	// takes DeafWindow more bytes. It never answers, so the login cannot succeed - and must be back when its context
+	// expires, whether it is waiting for a reply or for room to write.
+	Deaf       bool `json:"deaf,omitempty"`
+	DeafWindow int  `json:"deaf_window,omitempty"`
 	// CapVariant: which capabilities the scripted server grants - 0: a scattered set; 1: whole mask bytes (0xff)
 	// among them; 2: everything; 3: alternating bit patterns.
 	CapVariant int    `json:"cap_variant,omitempty"`
@@ -740,6 +745,13 @@ func runLogin(p *loginPlan, schedSeed uint64, replay []simrt.Choice, lenient, ke
 			}
 			conn = conn2
 		}
+		if p.Deaf && obs == mainObs {
+			window := p.DeafWindow
+			simrt.Sched(func() {
+				pr.Conn.PeerStalled, pr.Conn.SendWindow = true, window
+				s.Fault("peer-stops-reading")
+			})
+		}
 		ctx, cancel := simrt.WithTimeout(context.Background(), 30*time.Second)
 		defer cancel()
 		obs.deadline = simrt.SimNow() + 30*time.Second
@@ -967,6 +979,12 @@ func (c08) Gen(r *Rand, idx int, tier string) interface{} {
 	// seeded: benign decorations only (must succeed), or 2..4 edits (class: MUST-FAIL if any edit is MUST-FAIL, else EITHER)
 	encrypted := r.Pct(70)
 	p := genLoginPlan(r, encrypted)
+	if r.Pct(3) {
+		p.Deaf, p.DeafWindow = true, Pick(r, []int{0, 100, 400, 700, 2000, 100000})
+		p.Class = "MUST-FAIL"
+		p.Edit = fmt.Sprintf("none; the server stops reading (socket buffer %d bytes) and never answers", p.DeafWindow)
+		return p
+	}
 	if r.Pct(50) {
 		decorate(r, p)
 		p.Edit = "benign decorations"
@@ -1086,8 +1104,18 @@ func (c08) Run(plan interface{}, schedSeed uint64, replay []simrt.Choice, lenien
 	}
 	for _, pk := range out.Parked {
 		if !strings.HasPrefix(pk.Task, "go@") {
+			if p.Deaf && pk.Op == "write" {
+				// the one way a transport write can block here: the peer stopped reading (the library sets no write
+				// deadline: the same root as C13's listed finding)
+				v.Probe("login-towards-a-peer-that-stopped-reading")
+				v.Violate("blocked-write", "login (or the close after it) blocks in a transport write to a peer that stopped reading", "%s: still blocked at the end, long after the context expired: %v", where, out.Parked)
+				continue
+			}
 			v.Violate("blocked", "login or close never returned "+ParkSig(out, Sites), "%s: still blocked at the end: %v", where, out.Parked)
 		}
+	}
+	if p.Deaf {
+		v.Probe("kind:deaf-server")
 	}
 	if v.Class == "" {
 		if obs.returnedAt > obs.deadline {
